@@ -127,7 +127,8 @@ type txn struct {
 	state      string
 	registered bool
 	issued     time.Time
-	epoch      int // value of world.epoch when the begin was issued
+	queued     bool // a settle() has left this begin waiting at least once
+	epoch      int  // value of world.epoch when the begin was issued
 }
 
 func (t *txn) mode() string {
@@ -166,6 +167,7 @@ type world struct {
 	trace     []string
 	stepNo    int
 	wedged    bool
+	lastWait  time.Duration
 	abort     bool // go straight to the final probe
 }
 
@@ -325,6 +327,7 @@ func (w *world) released(op string, t *txn) {
 // waitFor polls cond until it holds or the liveness bound expires.
 func (w *world) waitFor(cond func() bool) bool {
 	start := time.Now()
+	defer func() { w.lastWait = time.Since(start) }()
 	deadline := start.Add(slowBound)
 	nextLeakCheck := start.Add(20 * time.Millisecond)
 	fast := false
@@ -364,7 +367,15 @@ func isDone(c *beginCall) bool {
 
 func (w *world) blocked(what string) {
 	w.wedged = true
-	w.fail("blocked_forever:"+w.diagnose(), "%s did not get the lock within %v although no transaction known to any client holds it", what, slowBound)
+	d := w.diagnose()
+	why := ""
+	if strings.HasPrefix(d, "holder=none_active") {
+		why = "; every transaction ever created is inactive, so a finished one kept its lock"
+	} else {
+		why = "; a transaction that no client and no registry entry can reach any more is still active (" + d + ")"
+	}
+	w.fail("blocked_forever:"+d, "%s did not get the lock within %v (bound %v, %v once an unreachable active transaction is proven) although no transaction known to any client holds it%s",
+		what, w.lastWait.Round(time.Millisecond), slowBound, fastBound, why)
 }
 
 func (w *world) checkState(ctx string) {
@@ -496,7 +507,9 @@ func (w *world) settle() {
 			if !ok {
 				w.blocked(fmt.Sprintf("none of %d queued begin calls", len(inf)))
 			}
-			w.features["queued_begin_resumed"] = true
+			if got.queued {
+				w.features["queued_begin_resumed"] = true
+			}
 			w.promote(got)
 			continue
 		}
@@ -509,6 +522,9 @@ func (w *world) settle() {
 				w.promote(t)
 			}
 			continue
+		}
+		for _, t := range inf {
+			t.queued = true
 		}
 		return
 	}
@@ -615,6 +631,7 @@ func (w *world) doBegin(s Step) {
 	}
 	ci, ok := pick(w.clientsWhere(func(t *txn) bool { return t == nil || t.closed() }), s.C)
 	if !ok {
+		w.counters["skipped_begin"]++
 		return
 	}
 	t := &txn{client: ci, path: s.Path, ro: s.RO, conn: "unknown", overlay: map[string]*string{}}
@@ -692,9 +709,21 @@ func (w *world) doBegin(s Step) {
 	w.settle()
 }
 
+// target selects the client of a use/finish step: any client with an open or a
+// finished transaction; Again prefers finished ones (later use, repeated finish).
+func (w *world) target(s Step) (int, bool) {
+	if s.Again {
+		if ci, ok := pick(w.clientsWhere(func(t *txn) bool { return t != nil && t.closed() }), s.C); ok {
+			return ci, true
+		}
+	}
+	return pick(w.clientsWhere(func(t *txn) bool { return t != nil && (t.state == stOpen || t.closed()) }), s.C)
+}
+
 func (w *world) doUse(s Step) {
-	ci, ok := pick(w.clientsWhere(func(t *txn) bool { return t != nil && (t.state == stOpen || t.closed()) }), s.C)
+	ci, ok := w.target(s)
 	if !ok {
+		w.counters["skipped_"+s.Op]++
 		return
 	}
 	t := w.cur[ci]
@@ -825,8 +854,9 @@ func (w *world) contended(t *txn) bool {
 }
 
 func (w *world) doFinish(s Step) {
-	ci, ok := pick(w.clientsWhere(func(t *txn) bool { return t != nil && (t.state == stOpen || t.closed()) }), s.C)
+	ci, ok := w.target(s)
 	if !ok {
+		w.counters["skipped_"+s.Op]++
 		return
 	}
 	w.finish(w.cur[ci], s.Op, s.Keep)
@@ -902,6 +932,7 @@ func (w *world) finish(t *txn, op string, keep bool) {
 func (w *world) doAbandon(s Step) {
 	ci, ok := pick(w.clientsWhere(func(t *txn) bool { return t != nil && t.state == stOpen && t.path != "direct" }), s.C)
 	if !ok {
+		w.counters["skipped_abandon"]++
 		return
 	}
 	t := w.cur[ci]
@@ -1016,6 +1047,7 @@ func (w *world) doBadGet(s Step) {
 		return t != nil && t.path == "svc" && ((t.state == stOpen && !s.OnlyClosed) || t.closed())
 	}), s.C)
 	if !ok {
+		w.counters["skipped_bad_get"]++
 		return
 	}
 	t := w.cur[ci]
@@ -1153,6 +1185,7 @@ func (w *world) run() {
 			break
 		}
 		w.stepNo = i
+		w.counters["steps"]++
 		switch s.Op {
 		case "begin":
 			w.doBegin(s)
